@@ -5,7 +5,7 @@
    (n, result, failed).  [result_of g x] : x is the result of a successful match of g somewhere. *)
 From Coq Require Import List NArith ZArith Bool Arith.
 Import ListNotations.
-From V Require Import Base.Prelude Base.TplRes Gen.Tokens Model.Tpl Model.C30 Proofs.Tpl Proofs.TplSem Proofs.TplSpec.
+From V Require Import Base.Prelude Base.TplRes Gen.Tokens Model.Tpl Model.C30 Proofs.Tpl Proofs.TplSem Proofs.TplSpec Model.TplRp Proofs.TplRpTerm Proofs.TplRpCons.
 Local Open Scope nat_scope.
 
 (* REFINEMENT.  [Dst env toks s o] (Proofs/TplSpec.v) is the README semantics written as a fuel-free
@@ -22,6 +22,15 @@ Proof. exact refines. Qed.
 (* the semantics determines the outcome: at most one of success (n, tree) / failure (n) is derivable *)
 Theorem C29_sem_functional : forall env toks s o1 o2, Dst env toks s o1 -> Dst env toks s o2 -> o1 = o2.
 Proof. exact functional. Qed.
+
+(* Result rewriters (RetProcs): Model/TplRp.v [runp] additionally models Var.RetProc and what every combinator
+   does with a runtime (Dyn) error (stated in that file; tied to the code by the differential run, not proved
+   against a separate specification).  It is a conservative extension: for a grammar compiled without RetProcs
+   it computes exactly what [run] computes — same n, same success/failure, same tree — so every theorem of this
+   file is a theorem about the RetProc-aware model restricted to such grammars. *)
+Theorem C29_retprocs_conservative : forall env toks f doc,
+  same (match_doc env toks f doc) (match_doc_rp (attach env []) toks f doc).
+Proof. exact match_doc_conservative. Qed.
 
 (* matching is a function of (grammar, input, position): terminating runs agree whatever the fuel *)
 Theorem C29_deterministic : forall env toks f1 f2 s,
@@ -124,6 +133,7 @@ Proof. split; vm_compute; reflexivity. Qed.
 
 Print Assumptions C29_match_refines_sem.
 Print Assumptions C29_sem_functional.
+Print Assumptions C29_retprocs_conservative.
 Print Assumptions C29_deterministic.
 Print Assumptions C29_sequence_shape.
 Print Assumptions C29_repeat0_greedy.
